@@ -208,8 +208,6 @@ def doc_decode(t, mem, off, parts=None, base=None):
         data = bytes(mem[off + 8: off + size])
         z = data.find(b"\x00")
         if z < 0:
-            if len(data) == 0:      # String(0): no room for any byte, the empty string
-                return "s"
             raise DocError("string not NUL-terminated")
         return "s" + data[:z].hex()
     if k == "ref":
